@@ -792,10 +792,21 @@ func scenarioRestart() *explore.Scenario {
 				}
 			})
 			x.Quiesce()
-			// crash (the disk survives), restart
+			// crash (the disk survives), restart: the new life's set-up runs only until the catalogue lists the dataset again -
+			// loading the partition's raft group and replaying its log is left to race with the first caller
 			x.S.KillPrefix("n1/")
 			node.Conn.Close()
-			boot("second")
+			setupDone := false
+			x.S.Spawn("n1/setup-second", false, func() {
+				node = world.NewRNode(1, db, []uint64{1})
+				if err := node.ApplyCreate(meta); err != nil {
+					panic(err)
+				}
+				setupDone = true
+			})
+			if r := x.S.Run(defaultPick{}, func() bool { return setupDone }); r != vrt.Stopped && !setupDone {
+				ev.Tool("scenario F: the second life's set-up did not finish: %v", x.S.Blocked())
+			}
 			x.OnCleanup(func() { node.Conn.Close(); db.Close() })
 			for _, t := range x.S.Timers() {
 				t.Stop()
@@ -803,13 +814,17 @@ func scenarioRestart() *explore.Scenario {
 			var err error
 			done := false
 			ds := node.Dataset(meta)
-			// the election (after which the log is replayed) and the new life's first caller race each other
-			x.S.Spawn("n1/campaign-second", true, func() { node.Campaign(meta) })
+			// loading the group / replaying its log and the new life's first caller race each other
 			x.S.Spawn("n1/caller0", true, func() {
 				err = ds.Remove(context.Background(), ids[2]) // never stored
 				done = true
 			})
 			return func(end vrt.EndReason) *explore.Violation {
+				if !done && x.S.Panicked() == nil {
+					// time passes: the group elects its leader (the caller's proposal can go ahead), then the caller's deadlines
+					x.S.Spawn("n1/campaign-second", false, func() { node.Campaign(meta) })
+					x.S.Run(defaultPick{}, nil)
+				}
 				if !done {
 					letTimePass(x)
 				}
